@@ -4,7 +4,7 @@
    beneath each.  The lexical leaves (string quoting, float and time texts) are a parameter [L : leaf];
    the round-trip statements assume [leaf_laws L] (JsonRT.v), which is property C09's subject. *)
 From Coq Require Import List NArith ZArith Bool Lia.
-From Verif Require Import Base.Outcome Wire.Item Gen.Consts Wire.Json Wire.JsonProofs Wire.JsonRT.
+From Verif Require Import Base.Outcome Wire.Item Gen.Consts Wire.Json Wire.JsonProofs Wire.JsonRT Wire.JsonDepth Wire.JsonTotal.
 Import ListNotations.
 Open Scope N_scope.
 
@@ -57,6 +57,48 @@ Print Assumptions W_json_seq.
 Theorem W_json_skip_total : forall (fuel : nat) (l : list N), skip fuel l <> OutOfFuel.
 Proof. exact skip_total_lemma. Qed.
 Print Assumptions W_json_skip_total.
+
+
+
+(* C02 at the wire level, decode side: for EVERY leaf whose string decoder ends and never hands back more
+   unread input than it was given ([leaf_total]), every option vector, tokenizer state (every input, every
+   pending token), depth and position: fuel linear in the number of bytes not yet interpreted suffices, the
+   decoder never runs out of fuel; and a successfully decoded value consumed at least one byte. *)
+Theorem W_json_dec_total : forall (L : leaf), leaf_total L ->
+  forall (D : dopts) (s : st) (fuel : nat) (dp : Z) (key : bool),
+  (2 * pending s + 1 <= fuel)%nat -> dec L D fuel dp key s <> OutOfFuel.
+Proof. exact dec_total_lemma. Qed.
+Print Assumptions W_json_dec_total.
+
+Theorem W_json_dec_progress : forall (L : leaf), leaf_total L ->
+  forall (D : dopts) (s : st) (fuel : nat) (dp : Z) (key : bool) (x : item) (s' : st),
+  (2 * pending s + 1 <= fuel)%nat -> dec L D fuel dp key s = Ok (x, s') -> (pending s' < pending s)%nat.
+Proof. exact dec_progress_lemma. Qed.
+Print Assumptions W_json_dec_progress.
+
+(* the API form: Decode(&interface{}) on a fresh Decoder over ANY bytes, with the standard fuel *)
+Theorem W_json_dec_naked_total : forall (L : leaf), leaf_total L ->
+  forall (D : dopts) (l : list N), dec_naked L D (dec_fuel (st0 l)) l <> OutOfFuel.
+Proof. exact dec_naked_total_lemma. Qed.
+Print Assumptions W_json_dec_naked_total.
+
+(* C14 at the wire level.  For EVERY leaf, option vector, tokenizer state (i.e. every input) and fuel:
+   the instrumented decoder is the decoder, and its deepest recursion level (one level per nested
+   decode(&interface{}) call, the top call being level 1) is at most MaxDepth.  The skip scanner does not
+   recurse at all (nextValueBytes is one loop; the model's [scan] is one structural loop over the bytes). *)
+Theorem W_json_depth : forall (L : leaf) (D : dopts) (fuel : nat) (s : st),
+  fst (deci L D fuel 0 1 false s) = dec L D fuel 0 false s /\
+  (Z.of_nat (snd (deci L D fuel 0 1 false s)) <= maxdepth D)%Z.
+Proof. exact depth_lemma. Qed.
+Print Assumptions W_json_depth.
+
+(* ... and a container met when MaxDepth - 1 containers are already open is refused with the depth error,
+   whatever follows (json has no depth accounting in the skip scanner: it needs none) *)
+Theorem W_json_depth_error : forall (L : leaf) (D : dopts) (f : nat) (depth : Z) (key : bool) (s s1 : st),
+  advance s = Ok s1 -> (tok s1 = 91 \/ tok s1 = 123) -> (maxdepth D <= depth + 1)%Z ->
+  dec L D (S f) depth key s = Err EDepth.
+Proof. exact dec_depth_refuse. Qed.
+Print Assumptions W_json_depth_error.
 
 (* ---- non-vacuity: the statements' conclusions on concrete data, with C09's string code and observed
    float / time texts as the leaf *)
@@ -115,4 +157,14 @@ Qed.
 Example W_json_skip_nonvacuous :
   skip 0 [91; 34; 93; 92; 34; 34; 44; 123; 125; 93; 49] = Ok [49] /\ skip 0 [91; 91; 93] = Err EEof /\
   raw [49; 50; 44; 51] = Ok ([49; 50], [51]).
+Proof. vm_compute. repeat apply conj; reflexivity. Qed.
+
+(* MaxDepth 3 accepts nesting 2 and refuses nesting 3 (arrays and maps alike); the recursion level reached
+   on 4000 opening brackets stays at the bound; the skip scanner takes the same bytes without recursion *)
+Example W_json_depth_nonvacuous :
+  let D := mkdopts false false false false 3 in
+  dec_naked exL D 100 [91; 91; 49; 93; 93] = Ok (IArr [IArr [IUint 1]], []) /\
+  dec_naked exL D 100 [91; 123; 34; 97; 34; 58; 91; 93; 125; 93] = Err EDepth /\
+  snd (deci exL (mkdopts false false false false 0) (N.to_nat 10000) 0 1 false (st0 (repeat 91 (N.to_nat 4000)))) = 1024%nat /\
+  skip 0 (repeat 91 (N.to_nat 3000) ++ repeat 93 (N.to_nat 3000) ++ [55]) = Ok [55].
 Proof. vm_compute. repeat apply conj; reflexivity. Qed.
